@@ -344,7 +344,7 @@ def blank (fill : Option Nat) : Cell :=
   | none => default
 
 theorem drawText_cells_gen (m : TextMode) (T : List Cell → List Cell) (c : Ctx) (hT : LineSpec m c.maxW T)
-    (hs : m.sizeStrict = true) (hd : m.drawStrict = true)
+    (hs : m.sizeOK) (hd : m.drawStrict = true)
     (lines : List (List Cell)) (hall : ∀ l ∈ lines, (∀ c ∈ l, 0 ≤ c.w) ∧ width l < 65536) :
     ∃ s, drawText exact m c lines = .ok s ∧
       s.w = widthFold c.maxW (lines.take c.maxH.toNat) 0 ∧
@@ -356,7 +356,7 @@ theorem drawText_cells_gen (m : TextMode) (T : List Cell → List Cell) (c : Ctx
   have hsize2 := sizeLoop_height c.maxW c.maxH lines 0 0 (by rw [UInt16.le_iff_toNat_le]; simp)
   have hle := sizeLoop_le c.maxW c.maxH lines 0 0 (by rw [UInt16.le_iff_toNat_le]; simp) (by rw [UInt16.le_iff_toNat_le]; simp)
   simp only [UInt16.toNat_zero, Nat.zero_add, Nat.sub_zero] at hsize1 hsize2
-  simp only [drawText, findContainerSize, hs]
+  simp only [drawText, findContainerSize, hs.1, hs.2, evalSz]
   generalize hW : (sizeLoop true c.maxW c.maxH lines 0 0).1 = W at hsize1 hle
   generalize hH : (sizeLoop true c.maxW c.maxH lines 0 0).2 = H at hsize2 hle
   have h0 := newSurface_sized W H
@@ -409,7 +409,7 @@ theorem drawLines_cellAt (m : TextMode) (hm : m.hard = false) (hd : m.drawStrict
         else cellAt s x y :=
   drawLines_cellAt_gen m id hd maxW maxH (lineSpec_soft m hm maxW)
 
-theorem drawText_cells (m : TextMode) (hm : m.hard = false) (hs : m.sizeStrict = true) (hd : m.drawStrict = true)
+theorem drawText_cells (m : TextMode) (hm : m.hard = false) (hs : m.sizeOK) (hd : m.drawStrict = true)
     (c : Ctx) (lines : List (List Cell)) (hall : ∀ l ∈ lines, (∀ c ∈ l, 0 ≤ c.w) ∧ width l < 65536) :
     ∃ s, drawText exact m c lines = .ok s ∧
       s.w = widthFold c.maxW (lines.take c.maxH.toNat) 0 ∧
@@ -553,7 +553,7 @@ theorem lineWidthInt_eq : ∀ (l : List Cell), (∀ c ∈ l, 0 ≤ c.w) → line
 /-- `truncate` = "the line does not fit". -/
 theorem tooWide_eq (maxW : UInt16) (l : List Cell) (h : ∀ c ∈ l, 0 ≤ c.w) :
     tooWide maxW l = decide (width l > maxW.toNat) := by
-  simp only [tooWide, lineWidthInt_eq l h, decide_eq_decide, Int.ofNat_eq_coe]
+  simp only [tooWide, lineWidthInt_eq l h, decide_eq_decide, Int.ofNat_eq_natCast]
   constructor <;> intro h <;> omega
 
 /-- A line narrower than `Max.Width` is drawn without ellipsis, exactly as in the soft-wrap mode. -/
@@ -599,7 +599,7 @@ theorem lineSpec_hard (m : TextMode) (hm : m.hard = true) (he : m.ell = [.lineTo
 
 /-- `drawText` in the hard-wrap mode, cell by cell. -/
 theorem drawText_cells_hard (m : TextMode) (hm : m.hard = true) (he : m.ell = [.lineTooWide, .reach])
-    (hs : m.sizeStrict = true) (hd : m.drawStrict = true)
+    (hs : m.sizeOK) (hd : m.drawStrict = true)
     (c : Ctx) (lines : List (List Cell)) (hall : ∀ l ∈ lines, (∀ c ∈ l, 0 ≤ c.w) ∧ width l < 65536) :
     ∃ s, drawText exact m c lines = .ok s ∧
       s.w = widthFold c.maxW (lines.take c.maxH.toNat) 0 ∧
